@@ -9,6 +9,7 @@ import (
 	"fmt"
 	"io"
 	"log/slog"
+	"net"
 	"sort"
 	"strings"
 	"sync"
@@ -78,6 +79,7 @@ type c24World struct {
 	member2  string // group g2
 	gen2     int32
 	corr     int32
+	ctx      context.Context // the connection's context (nil = no connection info)
 }
 
 var (
@@ -107,7 +109,55 @@ func c24Decode[T kmsg.Response](version int16, payload []byte, resp T) error {
 func (w *c24World) call(principal *string, key, version int16, req kmsg.Request) ([]byte, error) {
 	w.corr++
 	req.SetVersion(version)
-	return w.h.Handle(context.Background(), &protocol.RequestHeader{APIKey: key, APIVersion: version, CorrelationID: w.corr, ClientID: principal}, req)
+	ctx := w.ctx
+	if ctx == nil {
+		ctx = context.Background()
+	}
+	return w.h.Handle(ctx, &protocol.RequestHeader{APIKey: key, APIVersion: version, CorrelationID: w.corr, ClientID: principal}, req)
+}
+
+// c24ConnMode: how the server builds the connection info that all requests of ONE
+// connection share (broker.Server attaches one *ConnContext per connection).
+type c24ConnMode struct {
+	name   string
+	fn     broker.ConnContextFunc
+	header []byte
+}
+
+// c24ConnModes builds the real buildConnContextFunc for the principal-source modes in which
+// the identity is the Kafka client.id of each request: no connection info at all (default),
+// an unrecognised KAFSCALE_PRINCIPAL_SOURCE (falls back to client_id but attaches a
+// ConnContext), and PROXY protocol on with source client_id.
+func c24ConnModes(t *testing.T) []c24ConnMode {
+	logger := slog.New(slog.NewTextHandler(io.Discard, &slog.HandlerOptions{}))
+	modes := []c24ConnMode{{name: "no-conn-info"}}
+	t.Setenv("KAFSCALE_PRINCIPAL_SOURCE", "sasl_user")
+	t.Setenv("KAFSCALE_PROXY_PROTOCOL", "false")
+	modes = append(modes, c24ConnMode{name: "conn-info:unrecognised-source", fn: buildConnContextFunc(logger)})
+	t.Setenv("KAFSCALE_PRINCIPAL_SOURCE", "client_id")
+	t.Setenv("KAFSCALE_PROXY_PROTOCOL", "true")
+	modes = append(modes, c24ConnMode{name: "conn-info:proxy-protocol+client_id", fn: buildConnContextFunc(logger), header: []byte("PROXY TCP4 10.0.0.9 10.0.0.1 40000 9092\r\n")})
+	t.Setenv("KAFSCALE_PRINCIPAL_SOURCE", "")
+	t.Setenv("KAFSCALE_PROXY_PROTOCOL", "false")
+	return modes
+}
+
+// c24Connect runs the mode's ConnContextFunc over a pipe and returns the context every
+// request of that connection is served with.
+func c24Connect(m c24ConnMode) (context.Context, error) {
+	if m.fn == nil {
+		return context.Background(), nil
+	}
+	client, server := net.Pipe()
+	defer client.Close()
+	defer server.Close()
+	_ = server.SetDeadline(time.Now().Add(30 * time.Second))
+	go func() { _, _ = client.Write(append(append([]byte(nil), m.header...), 0, 0, 0, 8, 0, 18, 0, 0, 0, 0, 0, 1)) }()
+	_, info, err := m.fn(server)
+	if err != nil {
+		return nil, err
+	}
+	return broker.ContextWithConnInfo(context.Background(), info), nil
 }
 
 func c24NewWorld() (*c24World, error) {
@@ -1588,6 +1638,7 @@ func TestVF_C24_Sequences(t *testing.T) {
 	defer st.Flush()
 	c24Env(t)
 	known := vfkit.Known(c24FindingMeta)
+	connModes := c24ConnModes(t)
 	{
 		w, err := c24NewWorld()
 		if err != nil {
@@ -1618,6 +1669,16 @@ func TestVF_C24_Sequences(t *testing.T) {
 		doc, shape := c24SplitDoc(rt, cfg)
 		st.Class("acl-document:" + shape)
 		w.h.authorizer = acl.NewAuthorizer(doc)
+		// all requests of the case arrive on ONE connection (one shared connection info), with
+		// changing client.ids
+		mode := connModes[rapid.IntRange(0, len(connModes)-1).Draw(rt, "connMode")]
+		ctx, cerr := c24Connect(mode)
+		if cerr != nil {
+			fmt.Println("VF-INCONCLUSIVE: harness could not establish the connection context:", cerr)
+			rt.Fatalf("connection context (%s): %v", mode.name, cerr)
+		}
+		w.ctx = ctx
+		st.Class(mode.name)
 		w.h.autoCreateTopics = rapid.IntRange(0, 2).Draw(rt, "autoCreate") > 0
 		adv := c24Advertised(w.h)
 		n := rapid.IntRange(2, 6).Draw(rt, "n")
@@ -1626,7 +1687,7 @@ func TestVF_C24_Sequences(t *testing.T) {
 			r := gen.Draw(rt, "req")
 			fail, tier, nt := c24Exec(w, cfg, r, st, known)
 			if fail != "" {
-				rt.Fatalf("%s\nrequest %+v (step %d, autoCreate=%v)\nacl (logical) %+v\nacl document (%s) %+v", fail, r, i, w.h.autoCreateTopics, cfg, shape, doc.Principals)
+				rt.Fatalf("%s\nrequest %+v (step %d, autoCreate=%v)\nconnection %s\nacl (logical) %+v\nacl document (%s) %+v", fail, r, i, w.h.autoCreateTopics, mode.name, cfg, shape, doc.Principals)
 			}
 			if tier != "" && nt {
 				e := c24Entry(cfg, map[bool]string{true: "anonymous", false: r.Principal}[r.Principal == ""])
